@@ -40,6 +40,8 @@ CONSTANTS DivMapped,              \* "/" maps to an MX method that exists       
           PartialSubscriptIsRow,  \* A[i] on a matrix means A[i, :]              (as built: linear column-major element i)
           CallFirstOutput,        \* f(..) inside an expression = first output   (as built: vertcat of all outputs)
           StepRangeParsed,        \* a:b:c is start:step:stop                    (as built: read as start:stop:step)
+          RangeStopExact,         \* a loop range never goes beyond its stop      (as built: arange(start, stop + step, step) overshoots
+                                  \*                                               when stop - start is no multiple of step)
           IfStmtSequential,       \* if-statement branches run sequentially      (as built: merged per variable, in order of first appearance)
           ExploreOptions          \* TRUE: every program under all 8 (unroll_loops, inline_functions, expand_mx) sets (C12)
 
@@ -326,7 +328,7 @@ LoopValues(e, g) ==
         stop  == GetInteger(pStop, g)
     IN  IF pStart.k # "lit" \/ pStep.k # "lit" \/ HasNegLit(pStart) \/ HasNegLit(pStep) THEN [ok |-> FALSE, vals |-> <<>>]
         ELSE IF stop.kind # "int" THEN [ok |-> FALSE, vals |-> <<>>]
-        ELSE [ok |-> TRUE, vals |-> Arange(pStart.v[1], stop.i + pStep.v[1], pStep.v[1])]
+        ELSE [ok |-> TRUE, vals |-> Arange(pStart.v[1], stop.i + (IF RangeStopExact THEN (IF pStep.v[1] > 0 THEN 1 ELSE -1) ELSE pStep.v[1]), pStep.v[1])]
 
 (* statement lowering inside get_function: vals = current symbolic value of every local variable *)
 RECURSIVE FirstAppearance(_, _)
